@@ -13,7 +13,7 @@ import z3
 
 from engine.llir.interp import Exec
 from engine.pysym import core
-from engine.pysym.core import SR, SB, Dual, Unsupported
+from engine.pysym.core import SR, SB, SI, Dual, Unsupported
 
 ROOT = os.path.normpath(os.path.join(os.path.dirname(__file__), '..', '..'))
 
@@ -57,7 +57,7 @@ def sym_leaves(v, out):
     elif isinstance(v, np.ndarray):
         for x in v.flat:
             sym_leaves(x, out)
-    elif isinstance(v, SR):
+    elif isinstance(v, (SR, SI)):
         out.append(v.e)
     elif z3.is_expr(v):
         out.append(v)
@@ -75,6 +75,8 @@ def concretize(v, model):
         return v
     if isinstance(v, (SR, SB)):
         return core.value_of(model, v)
+    if isinstance(v, SI):
+        return model.eval(v.e, model_completion=True).as_long()
     if z3.is_expr(v):
         r = model.eval(v, model_completion=True)
         if z3.is_int_value(r):
@@ -264,7 +266,7 @@ def leaf_env(I, Ic, env):
     elif isinstance(I, np.ndarray):
         for a, b in zip(I.flat, np.asarray(Ic).flat):
             leaf_env(a, b, env)
-    elif isinstance(I, SR):
+    elif isinstance(I, (SR, SI)):
         if z3.is_const(I.e):
             env[I.e.decl().name()] = Ic
     elif z3.is_expr(I) and z3.is_const(I):
